@@ -223,7 +223,8 @@ CLAIMED = {
              "Eval of the pattern in Sparql.tla, hence all configurations agree with the algebra and with each other.",
         design_ref="DESIGN.md section 5 (C02)",
         note="Trusted: TLC, Python generator, the plan-rewriting harness (harness/src/c02.rs). Rayon-internal interleavings are not controlled. "
-             "The design-level Plan.tla (Exec = Eval for all candidate plans) is not built; the binding is trace validation only.",
+             "Plan.tla (operational semantics of bind / hash / nested-loop joins) is checked by TLC as a theorem over a small menu; the code is "
+             "bound by trace validation only.",
         technique="TLA+ denotational specification as oracle over a configuration matrix of recorded plan executions (trace validation)",
     ),
     "C03": dict(
